@@ -104,6 +104,11 @@ def preprocess_clause(cl, rng, n, replay):
         det = ["linear", "constant", "none", None][(j // 4) % 4]
         target = [0., None, 25., 370., -15.][j % 5]
         L = [2.0, 1.5, None, 3.0][(j // 2) % 4]
+        if j % 6 == 5:
+            # a sampling rate that is not a whole number of hertz (dt = 0.016 s): the corner frequencies are in hertz whatever the rate (window lengths with a whole number of samples)
+            fs, dt = 62.5, 0.016
+            L = [2.0, None, 4.0][(j // 6) % 3]
+            corners = [(0.5, None), (None, 15.0), (0.3, 12.0)][(j // 6) % 3]
         raws, recs, degs = [], [], []
         for _ in range(nrec):
             N = int(rng.integers(int(6.5 * fs), int(9 * fs)))
